@@ -79,7 +79,11 @@ LOOP3 = '''
 		if m != 1000000000 && d != 1000000000 {
 			class = "free"
 		}
-		out.Case(cqApp("K3", "%(coq)s", cqZ(v), cqZ(m), cqZ(d), cqZ(obs)),
+		coqf := "%(coq)s"
+		if coqf == "" { // the translator could not read this site: no model, the exact-arithmetic spec still applies
+			coqf = "(fun _ _ _ => " + cqZ(obs) + ")"
+		}
+		out.Case(cqApp("K3", coqf, cqZ(v), cqZ(m), cqZ(d), cqZ(obs)),
 			map[string]any{"site": "%(where)s", "v": v, "m": m, "d": d, "result": obs}, class, v != 0)
 	}
 '''
@@ -93,7 +97,11 @@ LOOP2 = '''
 		}
 		v := pickV(d)
 		obs := int64(%(fn)s(%(t0)s(v), %(t1)s(rate)))
-		out.Case(cqApp("%(ctor)s", "%(coq)s", cqZ(v), cqZ(rate), cqZ(obs)),
+		coqf := "%(coq)s"
+		if coqf == "" {
+			coqf = "(fun _ _ => " + cqZ(obs) + ")"
+		}
+		out.Case(cqApp("%(ctor)s", coqf, cqZ(v), cqZ(rate), cqZ(obs)),
 			map[string]any{"site": "%(where)s", "v": v, "rate": rate, "result": obs}, "%(kind)s", v != 0)
 	}
 '''
@@ -144,7 +152,7 @@ class C24(Prop):
                     open(out, "w").write(new)
         if rc != 0:
             raise RuntimeError("translator failed: " + o[-2000:])
-        return ["%s:%d %s -> %s (%s)" % (s["File"], s["Line"], s["Name"], s["CoqName"], s["Kind"]) for s in self.sites]
+        return ["%s:%d %s -> %s (%s)" % (s["File"], s["Line"], s["Name"], s.get("CoqName") or "UNTRANSLATABLE", s["Kind"]) for s in self.sites]
 
     def n_cases(self, tier):
         return self.n_quick if tier == "quick" else self.n_thorough
@@ -169,12 +177,12 @@ class C24(Prop):
                 where = "%s:%d %s" % (s["File"], s["Line"], s["Name"])
                 mx = "4294967295" if "uint32" in s["ParamTypes"] else "4294967296"
                 if s["Kind"] == "muldiv3":
-                    src += LOOP3 % {"fn": s["Name"], "t0": s["ParamTypes"][0], "t1": s["ParamTypes"][1], "t2": s["ParamTypes"][2],
-                                    "coq": s["CoqName"], "where": where, "max": mx}
+                    src += "\t{\n" + LOOP3 % {"fn": s["Name"], "t0": s["ParamTypes"][0], "t1": s["ParamTypes"][1], "t2": s["ParamTypes"][2],
+                                              "coq": s.get("CoqName") or "", "where": where, "max": mx} + "\t}\n"
                 else:
-                    src += LOOP2 % {"fn": s["Name"], "t0": s["ParamTypes"][0], "t1": s["ParamTypes"][1], "coq": s["CoqName"],
-                                    "where": where, "kind": s["Kind"], "ctor": "KTo" if s["Kind"] == "to_nanos" else "KFrom",
-                                    "max": mx}
+                    src += "\t{\n" + LOOP2 % {"fn": s["Name"], "t0": s["ParamTypes"][0], "t1": s["ParamTypes"][1], "coq": s.get("CoqName") or "",
+                                              "where": where, "kind": s["Kind"], "ctor": "KTo" if s["Kind"] == "to_nanos" else "KFrom",
+                                              "max": mx} + "\t}\n"
             src += "}\n"
             f = os.path.join(ctx.workdir, "zz_verif_c24_%s_test.go" % tag)
             open(f, "w").write(src)
